@@ -205,15 +205,15 @@ func writesThrough(p *Prog, fn *ssa.Function, idx int, depth int, chain string, 
 					switch bi.Name() {
 					case "append":
 						if sl, ok := cc.Args[0].(*ssa.Slice); ok && D[sl] && sl.High != nil {
-							add(in, "append onto a re-sliced part of the message's own slice (overwrites the elements behind it)")
+							add(in, "append onto a re-sliced part of one of its own slices (overwrites the elements behind it)")
 						}
 					case "copy":
 						if D[cc.Args[0]] {
-							add(in, "copy into the message's own slice")
+							add(in, "copy into one of its own slices")
 						}
 					case "delete", "clear":
 						if D[cc.Args[0]] {
-							add(in, bi.Name()+" on the message's own container")
+							add(in, bi.Name()+" on one of its own containers")
 						}
 					}
 					continue
